@@ -23,24 +23,24 @@ import (
 // User is the scripted user / PaaS.  It acts through ordinary API writes on the "user" handle and
 // reads the authoritative store (kubectl talks to the API server, not to a controller cache).
 type User struct {
-	sim   *Sim
-	sc    *Scenario
-	h     *Handle
-	ctx   context.Context
-	phase int // 0: create rollout, 1: wait healthy, 2: release v2, 3: running
-	Actions int
-	Version int // current desired version of the workload template (1, 2, 3 ...)
-	Released bool
-	Approvals int
-	PausedByUser bool
-	ExitNoBR bool
-	retryAt time.Time
+	sim           *Sim
+	sc            *Scenario
+	h             *Handle
+	ctx           context.Context
+	phase         int // 0: create rollout, 1: wait healthy, 2: release v2, 3: running
+	Actions       int
+	Version       int // current desired version of the workload template (1, 2, 3 ...)
+	Released      bool
+	Approvals     int
+	PausedByUser  bool
+	ExitNoBR      bool
+	retryAt       time.Time
 	ExitUnclaimed bool // an exit was requested while no BatchRelease held the workload
-	ReissuedID bool // rollout-id changed without a template change during the release
-	Early bool // a revision change was issued while the rollout was still initialising
-	doneKinds map[string]bool
-	doneAt    map[string]time.Time
-	Disturbed bool // the user did something after the release that changes what "finished" means
+	ReissuedID    bool // rollout-id changed without a template change during the release
+	Early         bool // a revision change was issued while the rollout was still initialising
+	doneKinds     map[string]bool
+	doneAt        map[string]time.Time
+	Disturbed     bool // the user did something after the release that changes what "finished" means
 }
 
 func NewUser(s *Sim, sc *Scenario) *User {
